@@ -439,6 +439,10 @@ def sweep_stale(max_age_s=6 * 3600):
                 pass
 
 
+import threading
+_SNAP_LOCK = threading.Lock()
+
+
 class Ctx:
     def __init__(self, prop, tier, seed):
         sweep_stale()
@@ -476,9 +480,10 @@ class Ctx:
 
     # ---- implementation snapshot -------------------------------------
     def snapshot(self, variant="plain"):
-        if variant not in self.snapshots:
-            self.snapshots[variant] = make_snapshot(variant)
-        return self.snapshots[variant]
+        with _SNAP_LOCK:             # checks call this from worker threads: without the lock each thread made (and leaked) its own copy
+            if variant not in self.snapshots:
+                self.snapshots[variant] = make_snapshot(variant)
+            return self.snapshots[variant]
 
     def import_catii(self):
         """Import the working-tree snapshot of catii into this process."""
